@@ -2,11 +2,23 @@
   Helper lemmas for C12: the modelled jsonpickle codec is the identity on encodable graphs.
 -/
 import XlVerif.Model.C12
+set_option linter.unusedSectionVars false
 namespace XlVerif.Lemmas.C12
 open XlVerif XlVerif.Model.C12
 
 /-! ### keys -/
 
+theorem okKey_iff (k : Text) : okKey k = true ↔ isReserved k = false ∧ jsonKeyPrefix.isPrefixOf k = false := by
+  simp [okKey]
+
+theorem escape_ok (b : Bool) (k : Text) (h : okKey k = true) : escapeKey b k = k := by
+  simp [escapeKey, ((okKey_iff k).mp h).2]
+
+theorem unescape_ok (b : Bool) (k : Text) (h : okKey k = true) : unescapeKey b k = k := by
+  simp [unescapeKey, ((okKey_iff k).mp h).2]
+
+/-- what `keys=True` is for: an escaped key is restored (for keys outside the fragment the numbering of back
+    references is the problem, not the key itself) -/
 theorem unescape_escape (b : Bool) (k : Text) : unescapeKey b (escapeKey b k) = k := by
   unfold unescapeKey escapeKey
   cases b
@@ -15,35 +27,22 @@ theorem unescape_escape (b : Bool) (k : Text) : unescapeKey b (escapeKey b k) = 
     · simp [h, List.isPrefixOf_iff_prefix.mpr (List.prefix_append jsonKeyPrefix k)]
     · simp [h]
 
-theorem escape_not_reserved (b : Bool) (k : Text) (h : isReserved k = false) :
-    isReserved (escapeKey b k) = false := by
-  unfold escapeKey
-  split
-  · simp [isReserved, reserved, jsonKeyPrefix, tId, tTuple, tSet, tObject, tType, tReduce, tNewargs, tLib]
-  · exact h
-
-/-- the members of an encoded dict / attribute list after their values have been restored -/
-def escF (b : Bool) : List (Text × Py) → List (Text × Py)
-  | [] => []
-  | (k, v) :: r => (escapeKey b k, v) :: escF b r
-
-theorem lookup_escF_none (cfg : Cfg) (b : Bool) (t : Text) (ht : isReserved t = true) :
-    ∀ kvs, encF cfg kvs = true → lookup t (escF b kvs) = none
+theorem lookup_none_of_encF (cfg : Cfg) (t : Text) (ht : isReserved t = true) :
+    ∀ kvs, encF cfg kvs = true → lookup t kvs = none
   | [], _ => rfl
   | (k, v) :: r, h => by
-    simp only [encF, Bool.and_eq_true, Bool.not_eq_true'] at h
-    have hk := escape_not_reserved b k h.1.1
-    have : escapeKey b k ≠ t := by intro e; rw [e, ht] at hk; cases hk
-    simp only [escF, lookup, this, if_false]
-    exact lookup_escF_none cfg b t ht r h.2
+    simp only [encF, Bool.and_eq_true] at h
+    have hk := ((okKey_iff k).mp h.1.1).1
+    have : k ≠ t := by intro e; rw [e, ht] at hk; cases hk
+    simp only [lookup, this, if_false]
+    exact lookup_none_of_encF cfg t ht r h.2
 
-theorem restoreItems_escF (cfg : Cfg) (b : Bool) :
-    ∀ kvs, encF cfg kvs = true → restoreItems b (escF b kvs) = kvs
+theorem restoreItems_id (cfg : Cfg) (b : Bool) :
+    ∀ kvs, encF cfg kvs = true → restoreItems b kvs = kvs
   | [], _ => rfl
   | (k, v) :: r, h => by
-    simp only [encF, Bool.and_eq_true, Bool.not_eq_true'] at h
-    simp only [escF, restoreItems, escape_not_reserved b k h.1.1, unescape_escape,
-      restoreItems_escF cfg b r h.2]
+    simp only [encF, Bool.and_eq_true] at h
+    simp only [restoreItems, ((okKey_iff k).mp h.1.1).1, unescape_ok b k h.1.1, restoreItems_id cfg b r h.2]
     rfl
 
 theorem decodeL_strs (cfg : Cfg) : ∀ h : List Text, decodeL cfg (h.map Json.str) = h.map Py.str
@@ -66,8 +65,7 @@ theorem lookup_cons_eq {α} (t : Text) (v : α) (r : List (Text × α)) : lookup
   simp [lookup]
 
 section
-variable (cfg : Cfg) (hk : cfg.keysW = cfg.keysR)
-include hk
+variable (cfg : Cfg)
 
 mutual
 theorem decode_encode : ∀ g : Py, enc cfg g = true → decode cfg (encode cfg g) = g
@@ -90,10 +88,10 @@ theorem decode_encode : ∀ g : Py, enc cfg g = true → decode cfg (encode cfg 
     simp only [enc] at h
     have t := tag_reserved
     simp only [encode, decode, decodeF_encodeF kvs h, interp,
-      lookup_escF_none cfg cfg.keysW _ t.1 kvs h, lookup_escF_none cfg cfg.keysW _ t.2.1 kvs h,
-      lookup_escF_none cfg cfg.keysW _ t.2.2.1 kvs h, lookup_escF_none cfg cfg.keysW _ t.2.2.2.1 kvs h,
-      lookup_escF_none cfg cfg.keysW _ t.2.2.2.2.1 kvs h, lookup_escF_none cfg cfg.keysW _ t.2.2.2.2.2.1 kvs h]
-    rw [← hk, restoreItems_escF cfg cfg.keysW kvs h]
+      lookup_none_of_encF cfg _ t.1 kvs h, lookup_none_of_encF cfg _ t.2.1 kvs h,
+      lookup_none_of_encF cfg _ t.2.2.1 kvs h, lookup_none_of_encF cfg _ t.2.2.2.1 kvs h,
+      lookup_none_of_encF cfg _ t.2.2.2.2.1 kvs h, lookup_none_of_encF cfg _ t.2.2.2.2.2.1 kvs h]
+    rw [restoreItems_id cfg _ kvs h]
   | .obj c fs, h => by
     simp only [enc, Bool.and_eq_true, Bool.not_eq_true'] at h
     obtain ⟨⟨hr, hn⟩, hf⟩ := h
@@ -102,11 +100,11 @@ theorem decode_encode : ∀ g : Py, enc cfg g = true → decode cfg (encode cfg 
       lookup_cons_ne _ _ (by decide : tObject ≠ tTuple), lookup_cons_ne _ _ (by decide : tObject ≠ tSet),
       lookup_cons_ne _ _ (by decide : tObject ≠ tId), lookup_cons_ne _ _ (by decide : tObject ≠ tNewargs),
       lookup_cons_ne _ _ (by decide : tObject ≠ tLib),
-      lookup_escF_none cfg cfg.keysW _ t.1 fs hf, lookup_escF_none cfg cfg.keysW _ t.2.1 fs hf,
-      lookup_escF_none cfg cfg.keysW _ t.2.2.1 fs hf, lookup_escF_none cfg cfg.keysW _ t.2.2.2.2.2.2.1 fs hf,
-      lookup_escF_none cfg cfg.keysW _ t.2.2.2.2.2.2.2 fs hf, hr, hn, restoreItems, t.2.2.2.1]
+      lookup_none_of_encF cfg _ t.1 fs hf, lookup_none_of_encF cfg _ t.2.1 fs hf,
+      lookup_none_of_encF cfg _ t.2.2.1 fs hf, lookup_none_of_encF cfg _ t.2.2.2.2.2.2.1 fs hf,
+      lookup_none_of_encF cfg _ t.2.2.2.2.2.2.2 fs hf, hr, hn, restoreItems, t.2.2.2.1]
     simp only [Bool.not_true, Bool.false_eq_true, if_false, if_true]
-    rw [← hk, restoreItems_escF cfg cfg.keysW fs hf]
+    rw [restoreItems_id cfg _ fs hf]
   | .slots c args, h => by
     simp only [enc, Bool.and_eq_true] at h
     obtain ⟨⟨hn, hr⟩, ha⟩ := h
@@ -127,11 +125,11 @@ theorem decode_encode : ∀ g : Py, enc cfg g = true → decode cfg (encode cfg 
       lookup_cons_ne _ _ (by decide : tReduce ≠ tType),
       lookup_cons_ne _ _ (by decide : tType ≠ tTuple), lookup_cons_ne _ _ (by decide : tType ≠ tSet),
       lookup_cons_ne _ _ (by decide : tType ≠ tId), lookup_cons_ne _ _ (by decide : tType ≠ tObject), hr,
-      lookup_escF_none cfg cfg.keysW _ t.1 st hs, lookup_escF_none cfg cfg.keysW _ t.2.1 st hs,
-      lookup_escF_none cfg cfg.keysW _ t.2.2.1 st hs, lookup_escF_none cfg cfg.keysW _ t.2.2.2.1 st hs,
-      lookup_escF_none cfg cfg.keysW _ t.2.2.2.2.1 st hs, lookup_escF_none cfg cfg.keysW _ t.2.2.2.2.2.1 st hs]
+      lookup_none_of_encF cfg _ t.1 st hs, lookup_none_of_encF cfg _ t.2.1 st hs,
+      lookup_none_of_encF cfg _ t.2.2.1 st hs, lookup_none_of_encF cfg _ t.2.2.2.1 st hs,
+      lookup_none_of_encF cfg _ t.2.2.2.2.1 st hs, lookup_none_of_encF cfg _ t.2.2.2.2.2.1 st hs]
     simp only [if_true]
-    rw [← hk, restoreItems_escF cfg cfg.keysW st hs]
+    rw [restoreItems_id cfg _ st hs]
   | .lib c p, h => by
     simp only [enc] at h
     simp only [encode, decode, decodeF, interp, lookup_cons_eq, lookup_nil,
@@ -157,11 +155,11 @@ theorem decodeL_encodeL : ∀ gs : List Py, encL cfg gs = true → decodeL cfg (
     simp only [encL, Bool.and_eq_true] at h
     simp only [encodeL, decodeL, decode_encode x h.1, decodeL_encodeL xs h.2]
 theorem decodeF_encodeF : ∀ kvs : List (Text × Py), encF cfg kvs = true →
-    decodeF cfg (encodeF cfg kvs) = escF cfg.keysW kvs
+    decodeF cfg (encodeF cfg kvs) = kvs
   | [], _ => rfl
   | (k, v) :: r, h => by
     simp only [encF, Bool.and_eq_true] at h
-    simp only [encodeF, decodeF, escF, decode_encode v h.1.2, decodeF_encodeF r h.2]
+    simp only [encodeF, decodeF, escape_ok _ k h.1.1, decode_encode v h.1.2, decodeF_encodeF r h.2]
 end
 end
 end XlVerif.Lemmas.C12
